@@ -17,6 +17,7 @@ in every preconditioner representation: full, compressed (+r / -r), frequent-dir
 int16-quantized under pmap on 2 forced host devices.
 """
 import json
+import math
 
 from harness import common
 from harness.common import zlit, blit, qlit
@@ -170,6 +171,22 @@ def run_cases(ctx, cases, tag="corr"):
   for i, r in enumerate(results):
     if "exc" in r or "recs" not in r:
       continue
+    # non-finite values have no dyadic form: a non-finite update computed from a finite graft step and a
+    # finite preconditioned gradient is a violation on the implementation itself (the gradients are
+    # integers); a non-finite oracle input (p / s) belongs to C02 / C03 and is only counted
+    nonfin = [(rec, [k for k in ("u", "p", "s") if k in rec and not all(math.isfinite(float(x)) for x in rec[k])])
+              for rec in r["recs"]]
+    nonfin = [(rec, ks) for rec, ks in nonfin if ks]
+    if nonfin:
+      for rec, ks in nonfin:
+        if ks == ["u"]:
+          r["ok"] = False
+          r.setdefault("why", []).append(
+              "non-finite update at step %d param %d although the graft step and the preconditioned "
+              "gradient are finite" % (rec["t"], rec["k"]))
+        else:
+          ctx.count("oracle-nonfinite-skipped")
+      continue
     ts = terms_for(r)
     terms += ts
     owner += [(i, j) for j in range(len(ts))]
@@ -300,6 +317,7 @@ def run(ctx):
       "norm of <= 120 entries has relative error < 2e-6), warm-up equality 2e-6 relative to the largest "
       "entry (float32 evaluation of x/(sqrt(acc)+eps) vs float64) or bitwise for SGD / sign / none"]
   ctx.proofs(**PROOF_ARGS)
+  translator_obligations(ctx)
   known = common.load_known_findings("C05")
   reported = set()
   corpus = load_corpus()
@@ -310,6 +328,31 @@ def run(ctx):
   ctx.log("%d generated cases" % len(cases))
   judge(ctx, run_cases(ctx, cases), known, reported)
   ctx.flush_proof_failures()
+
+
+def translator_obligations(ctx):
+  """Regenerate the translation of tearfree maybe_graft from /repo and re-prove it equal to C05.Ref
+  (linked to tf_update by c05_tf_source_is_model)."""
+  from tools import targets
+  text, errors = targets.generate_c05(common.REPO)
+  ctx.cov["obligations"] += 2
+  if errors:
+    ctx.proof_failure("translate tearfree/grafting.py maybe_graft", json.dumps(errors))
+    return
+  ok, out = ctx.gen_obligation("Gen", text)
+  if not ok:
+    ctx.proof_failure("compile gen/C05/Gen.v (translation of maybe_graft)", out[-2000:])
+    return
+  ctx.cov["discharged"] += 1
+  ob = ("From Precond Require Import Base.PyLib Base.QMat Base.PyFloat.\nFrom Precond Require C05.Ref.\n"
+        "From PrecondGen Require C05.Gen.\n"
+        "Lemma gen_eq_tf_maybe_graft : C05.Gen.tf_maybe_graft = C05.Ref.tf_maybe_graft.\n"
+        "Proof. reflexivity. Qed.\n")
+  ok, out = ctx.gen_obligation("GenEq_tf_maybe_graft", ob)
+  if ok:
+    ctx.cov["discharged"] += 1
+  else:
+    ctx.proof_failure("GenEq_tf_maybe_graft (Gen = Ref)", out[-2000:])
 
 
 def replay(ctx, rec):
